@@ -309,11 +309,30 @@ def _exit_words(repo, m, cls):
     be = repo.class_attr(m, cls, "block_exit")
     words = set()
     if be and isinstance(be[2], ast.FunctionDef):
-        for n in ast.walk(be[2]):
-            if isinstance(n, ast.Call) and call_name(n) == "block_wrapper" and n.args and isinstance(n.args[0], ast.Constant):
-                words.add(n.args[0].value)
-            elif isinstance(n, ast.Yield) and isinstance(n.value, ast.Constant) and isinstance(n.value.value, str):
-                words.add(n.value.value)
+        fn = repo.canon(be[0], be[2])
+        pv = Provenance(fn)
+
+        def consts(e, depth=0):
+            e = pv.resolve_alias(e)
+            if isinstance(e, ast.Name) and depth < 4:
+                for d in pv.rd.defs(e):
+                    if d.value is not None and d.kind == "assign":
+                        consts(d.value, depth + 1)
+                return
+            for x in ast.walk(e):
+                if isinstance(x, ast.Constant) and isinstance(x.value, str):
+                    # only values, not the operands of tests
+                    p_ = getattr(x, "_parent", None)
+                    if isinstance(p_, (ast.Compare, ast.Call)) and not (isinstance(p_, ast.Call) and call_name(p_) == "block_wrapper"):
+                        continue
+                    if isinstance(p_, ast.Tuple) and isinstance(getattr(p_, "_parent", None), ast.Call):
+                        continue
+                    words.add(x.value)
+        for n in ast.walk(fn):
+            if isinstance(n, ast.Call) and call_name(n) == "block_wrapper" and n.args:
+                consts(n.args[0])
+            elif isinstance(n, ast.Yield) and n.value is not None:
+                consts(n.value)
     return words
 
 
